@@ -23,6 +23,7 @@ fn main() {
         "c12" => checks::c12::run(&a),
         "c13" => checks::c13::run(&a),
         "c14" => checks::c14::run(&a),
+        "miri" => checks::mirirun::run(&a),
         other => {
             eprintln!("unknown check {other}");
             std::process::exit(2);
